@@ -196,3 +196,16 @@ M("c07-include-shares-context", "C07", "include-isolation", (R, "        context
 M("c07-context-overrides-args", "C07", "include-args", (R, '        if arg != "context" and arg in data and arg not in kwargs:\n            kwargs[arg] = data[arg]\n    return kwargs\n\n\ndef _render_context', '        if arg != "context" and arg in data:\n            kwargs[arg] = data[arg]\n    return kwargs\n\n\ndef _render_context'))
 M("c07-get-template-root", "C07", "calling-uri", (R, "        return _lookup_template(self.context, uri, self._templateuri)", "        return _lookup_template(self.context, uri, None)"))
 M("c07-no-translate", "C07", "single-gateway", (R, "    try:\n        return lookup.get_template(uri)\n    except exceptions.TopLevelLookupException as e:\n        raise exceptions.TemplateLookupException(\n            str(compat.exception_as())\n        ) from e", "    return lookup.get_template(uri)"))
+
+# ---------------------------------------------------------------- C08
+M("c08-set-order-loop", "C08", "hash-order", (CG, "        for ident in sorted(to_write, key=lambda i: (i in comp_idents, i)):", "        for ident in to_write:"))
+M("c08-no-moduleinfo", "C08", "registry", (T, "            ModuleInfo(module, path, self, filename, None, None, None)\n", ""))
+M("c08-list-defs-slice", "C08", "render-prefix", (T, 'return [i[7:] for i in dir(self.module) if i[:7] == "render_"]', 'return [i[6:] for i in dir(self.module) if i[:7] == "render_"]'))
+M("c08-decorate-slice", "C08", "render-prefix", (R, "y.__name__ = render_fn.__name__[7:]", "y.__name__ = render_fn.__name__[6:]"))
+M("c08-module-attr-renamed", "C08", "module-attrs", (CG, 'self.printer.writeline("_enable_loop = %r" % self.compiler.enable_loop)', 'self.printer.writeline("_loop_enabled = %r" % self.compiler.enable_loop)'))
+M("c08-compile-drops-strict", "C08", "one-pipeline", (T, "        strict_undefined=template.strict_undefined,\n", ""))
+M("c08-lookup-drops-option", "C08", "one-pipeline", (L, '            "strict_undefined": strict_undefined,\n', ""))
+M("c08-filepath-other-filters", "C08", "one-pipeline", (T, "        default_filters=template.default_filters,\n", "        default_filters=template.default_filters if generate_magic_comment else [\"str\"],\n"))
+M("c08-render-unicode-direct", "C08", "one-pipeline", (T, "        return runtime._render(\n            self, self.callable_, args, data, as_unicode=True\n        )", "        return runtime._render(\n            self, self.module.render_body, args, data, as_unicode=True\n        )"))
+M("c08-deftemplate-loses-handler", "C08", "one-pipeline", (T, "        self.error_handler = parent.error_handler\n", ""))
+M("c08-benign-sorted-list", "C08", "silent", (CG, "        for ident in sorted(to_write, key=lambda i: (i in comp_idents, i)):", "        ordered = sorted(to_write, key=lambda i: (i in comp_idents, i))\n        for ident in ordered:"))
